@@ -376,6 +376,43 @@ class Exec:
                 p.pc.append(proj(v, "n_" + fm.group(1)) == val)
             return v
         m = re.match(r"^((?:[\w]+(?:::<[^()]*?>)?::)*)(\w+)(?:::<.*?>)?(?:\((.*)\))?$", r, re.S)
+        if not m:
+            # generic arguments that contain parentheses, e.g. Result::<(), Error>::Ok(const ())
+            head = r
+            args_txt = None
+            if r.endswith(")"):
+                depth = 0
+                for i in range(len(r) - 1, -1, -1):
+                    if r[i] == ")":
+                        depth += 1
+                    elif r[i] == "(":
+                        depth -= 1
+                        if depth == 0:
+                            head, args_txt = r[:i], r[i + 1:-1]
+                            break
+            flat, depth = "", 0
+            i = 0
+            while i < len(head):
+                if head.startswith("::<", i):
+                    depth += 1
+                    i += 3
+                    continue
+                if depth and head[i] == "<":
+                    depth += 1
+                elif depth and head[i] == ">" and head[i - 1] != "-":
+                    depth -= 1
+                elif not depth:
+                    flat += head[i]
+                i += 1
+            mm = re.match(r"^((?:\w+::)*)(\w+)$", flat)
+            if mm:
+                class _M:
+                    def __init__(self, a, b, c):
+                        self.g = (None, a, b, c)
+
+                    def group(self, k):
+                        return self.g[k]
+                m = _M(mm.group(1), mm.group(2), args_txt)
         if m:
             prefix, name, args = m.group(1), m.group(2), m.group(3)
             enum = None
@@ -560,6 +597,13 @@ class Exec:
         steps = 0
         while True:
             steps += 1
+            visits = p.ghost.get("_visits", {})
+            key = fn.name + ":" + bb
+            if visits.get(key, 0) > 24:
+                raise Inconclusive("loop bound: block %s of %s visited more than 24 times on one path" % (bb, fn.name))
+            visits = dict(visits)
+            visits[key] = visits.get(key, 0) + 1
+            p.ghost["_visits"] = visits
             if steps > 4000:
                 raise Inconclusive("step budget exceeded in %s" % fn.name)
             if bb not in fn.blocks:
